@@ -1,0 +1,20 @@
+// Accessors for the package's sync.Pools, used only by the /verif harness (pool-discipline audit).
+// Compiled only with -tags verif; adds no behaviour and touches no existing line.
+
+//go:build verif && (!goexperiment.jsonv2 || !go1.25)
+
+package jsontext
+
+import "sync"
+
+// VerifPools returns the package-level pools by name.
+func VerifPools() map[string]*sync.Pool {
+	return map[string]*sync.Pool{
+		"bufferedEncoder":    bufferedEncoderPool,
+		"streamingEncoder":   streamingEncoderPool,
+		"bytesBufferEncoder": bytesBufferEncoderPool,
+		"bufferedDecoder":    bufferedDecoderPool,
+		"streamingDecoder":   streamingDecoderPool,
+		"objectMembers":      &objectMemberPool,
+	}
+}
